@@ -105,7 +105,7 @@ def handle (line : String) : String :=
           let big := arch != "mipsel"
           let spec := if isMips then mipsSpec big bytes addr m else Isa.Ppc.specLine bytes addr m
           let mirror : Option BTR :=
-            if isMips then Isa.Mips.liftBTR big (wordsOf big bytes) addr else Isa.Ppc.liftBTR (wordsOf true bytes) addr
+            if isMips then Isa.Mips.liftBTRall big (wordsOf big bytes) addr else Isa.Ppc.liftBTR (wordsOf true bytes) addr
           if ans.startsWith "err:" || ans.startsWith "panic" then
             let mir := match mirror with | none => "none" | some _ => "diff"
             s!"{ans} | mirror={mir}\t{spec}"
